@@ -19,6 +19,7 @@ func genMore() {
 	genMapRanges()
 	genMainFacts()
 	genLoaderFacts()
+	genNarrowFacts()
 }
 
 type methInfo struct {
